@@ -16,7 +16,9 @@ META = {
             "chunkings and scan-aligned input chunkings vs the one-shot ll2cr+fornav. dask-mixed: the same with the data's row chunking drawn "
             "independently of the geolocation's (uniform / irregular whole-scan chunks, one chunk, numpy on either side, column-split data, a bands "
             "dimension, rows_per_scan from the keyword or lons.attrs); a difference that is exactly the omission of geolocation chunks without a pixel "
-            "within one cell of the grid is tagged cause=edge-chunk-dropped. Non-trivial: at least two contributions in some cell "
+            "within one cell of the grid is tagged cause=edge-chunk-dropped. dask-scan-grouping: bow-tie swaths (scan grouping changes the grid), rows_per_scan "
+            "keyword = the instrument's scan size / a multiple / a divisor / 0 / not given, next to numpy, dask, DataArray geolocation with or without "
+            "attrs['rows_per_scan'], vs one-shot fornav(rows_per_scan=keyword). Non-trivial: at least two contributions in some cell "
             "and at least one invalid pixel, or more than one chunk. Distinct = distinct canonical input.",
     "assumptions": ["the Gaussian weight of a pixel on a cell (ellipse parameters, exp table, float32) is a parameter: measured on the real kernel "
                     "with single-valid-pixel data; what is checked is that every result is the model's combination of those footprints",
@@ -687,6 +689,198 @@ def suite_dask_mixed(ctx):
                     break
 
 
+def _bowtie_swath(rng, area, scan, nscans, scols):
+    """a whisk-broom scanner's swath over (and a little beyond) the area, in lon/lat: `nscans` scans of `scan` detector rows; every scan
+    grows off-nadir and overlaps its neighbours there (bow-tie), the scan lines are curved and the columns are unevenly spaced, so that
+    the geometry is not an affine function of (row, column) and the EWA ellipse parameters depend on how rows are grouped into scans"""
+    import pyproj
+    x0, y0, x1, y1 = area.area_extent
+    c = np.linspace(-1.0, 1.0, scols)
+    sidx, tidx = np.divmod(np.arange(scan * nscans), scan)
+    lo, hi = rng.uniform(-0.12, 0.02), rng.uniform(0.98, 1.12)
+    centre = lo + (sidx + 0.5) / nscans * (hi - lo)                     # one scan per 1/nscans of the grid height
+    offset = (tidx - (scan - 1) / 2.0) / scan * (hi - lo) / nscans      # detector rows inside the scan
+    growth = 1.0 + rng.uniform(0.8, 2.2) * c ** 2                       # scan height grows off-nadir
+    v = centre[:, None] + offset[:, None] * growth[None, :] + rng.uniform(-0.12, 0.12) * c[None, :] ** 2
+    u = 0.5 + rng.uniform(0.5, 0.62) * (c + rng.uniform(0.1, 0.4) * c ** 3)[None, :] + rng.uniform(-0.15, 0.15) * (v - 0.5)
+    X, Y = x0 + u * (x1 - x0), y1 + v * (y0 - y1)
+    tr = pyproj.Transformer.from_crs(area.crs, area.crs.geodetic_crs, always_xy=True)
+    lons, lats = tr.transform(X, Y)
+    return np.ascontiguousarray(np.asarray(lons, float)), np.ascontiguousarray(np.asarray(lats, float))
+
+
+def _edge_chunks_explain(lons, lats, area, cols, rows, data, chunk_rows, rps, mwm, kw, got):
+    """Attribution only (finding F34; the verdict 'differs from one-shot' is already in): is `got` the one-shot grid of the swath WITHOUT
+    the geolocation chunks (of `chunk_rows` rows) that have no pixel within one cell of the grid?  -> the dropped row ranges or None"""
+    from pyresample.ewa import fornav, ll2cr
+    from pyresample.geometry import SwathDefinition
+    srows = lons.shape[0]
+    c2, r2, dropped = np.array(cols, copy=True), np.array(rows, copy=True), []
+    for r0 in range(0, srows, chunk_rows):
+        with warnings.catch_warnings():
+            warnings.simplefilter("ignore")
+            n_in = ll2cr(SwathDefinition(lons[r0:r0 + chunk_rows].copy(), lats[r0:r0 + chunk_rows].copy()), area)[0]
+        if n_in == 0:
+            c2[r0:r0 + chunk_rows] = np.nan
+            r2[r0:r0 + chunk_rows] = np.nan
+            dropped.append([r0, min(r0 + chunk_rows, srows)])
+    if not dropped:
+        return None
+    try:
+        with warnings.catch_warnings():
+            warnings.simplefilter("ignore")
+            _, alt = fornav(c2, r2, area, data.copy(), rows_per_scan=rps, maximum_weight_mode=mwm, **kw)
+    except RuntimeError:
+        return None
+    alt = np.asarray(alt, float)
+    if alt.shape != got.shape or (np.isnan(alt) != np.isnan(got)).any():
+        return None
+    ok = ~np.isnan(alt)
+    t = 0.0 if mwm else 2e-4 * (1 + np.abs(np.where(ok, alt, 0)))
+    return dropped if not (ok & (np.abs(np.where(ok, got - alt, 0)) > t)).any() else None
+
+
+def suite_dask_scan_grouping(ctx):
+    """DaskEWAResampler.resample(data, rows_per_scan=R) on a real scanner geometry (bow-tie scans, curved scan lines), where the grid
+    depends on how the rows are grouped into scans: R is the instrument's scan size, a multiple or a divisor of it, or 0 (the whole swath
+    as one scan), whatever the geolocation says about itself - numpy / dask / DataArray lon/lats, DataArrays whose attrs carry the
+    instrument's rows_per_scan (on the longitudes, or on both), or no keyword at all (then the attrs decide).  The grid must be the
+    one-shot ll2cr + fornav(rows_per_scan=R) grid; a constant field stays constant and values stay within the input range."""
+    import dask
+    import dask.array as da
+    import xarray as xr
+
+    from pyresample.ewa import DaskEWAResampler, fornav, ll2cr
+    from pyresample.geometry import AreaDefinition, SwathDefinition
+    rng = ctx.rng
+    site = "ewa.DaskEWAResampler.resample"
+    laea = {"proj": "laea", "lat_0": 52, "lon_0": 10, "ellps": "WGS84"}
+    areas = [("laea", laea, 34, 40, (-340000, -400000, 340000, 400000)), ("longlat", {"proj": "longlat", "ellps": "WGS84"}, 30, 36, (2.0, 40.0, 17.0, 58.0)),
+             ("eqc", {"proj": "eqc", "lon_0": -90, "datum": "WGS84"}, 35, 45, (-600000, 2450000, 600000, 3350000)),
+             ("lcc", {"proj": "lcc", "lat_0": 25, "lat_1": 25, "lon_0": -95, "datum": "WGS84"}, 28, 38, (-280000, -380000, 280000, 380000))]
+    n = 4 if ctx.quick else 24
+    for it in range(n):
+        name, proj, w, h, ext = areas[it % len(areas)]
+        with warnings.catch_warnings():
+            warnings.simplefilter("ignore")
+            area = AreaDefinition(name, name, name, proj, w, h, ext)
+        scan = rng.choice([4, 6, 10])                                    # the instrument's scan size
+        nscans = rng.choice([4, 6, 8])
+        srows, scols = scan * nscans, rng.randint(16, 30)
+        lons, lats = _bowtie_swath(rng, area, scan, nscans, scols)
+        dtype = rng.choice([np.float32, np.float64])
+        ii, jj = np.meshgrid(np.arange(srows), np.arange(scols), indexing="ij")
+        if rng.random() < 0.5:
+            data = (5.0 * ii + 2 * np.cos(jj * 0.4)).astype(dtype)
+        else:
+            data = np.array([[rng.random() for _ in range(scols)] for _ in range(srows)]).astype(dtype)
+        bad = np.array([[rng.random() < 0.05 for _ in range(scols)] for _ in range(srows)])
+        data[bad] = np.nan
+        data = np.ascontiguousarray(data)
+        vmin, vmax = float(data[~bad].min()), float(data[~bad].max())
+        const = np.where(bad, np.nan, 7.25).astype(dtype)
+        kw = {"weight_delta_max": rng.choice([10.0, 4.0]), "weight_distance_max": rng.choice([1.0, 1.4])}
+        with warnings.catch_warnings():
+            warnings.simplefilter("ignore")
+            _, cols, rows = ll2cr(SwathDefinition(lons.copy(), lats.copy()), area)
+        requests = [scan, 2 * scan, 0, srows, scan // 2, None]            # the keyword; None: not given
+        refs = {}
+        for mwm in (False, True):
+            for req in requests:
+                rps = scan if req is None else (req or srows)
+                if (rps, mwm) in refs:
+                    continue
+                try:
+                    with warnings.catch_warnings():
+                        warnings.simplefilter("ignore")
+                        refs[(rps, mwm)] = np.asarray(fornav(cols, rows, area, data.copy(), rows_per_scan=rps, maximum_weight_mode=mwm, **kw)[1], float)
+                except RuntimeError:
+                    refs[(rps, mwm)] = None
+        n_layouts = 8 if ctx.quick else 16
+        for li in range(n_layouts):
+            mwm = bool(li % 2)
+            geo_kind = ["xarray+attrs", "xarray+attrs", "xarray+attrs-both", "xarray", "dask", "numpy", "xarray+attrs", "xarray+attrs-both"][li % 8]
+            req = requests[(li // 2 + it) % 5] if li % 8 < 6 or not geo_kind.startswith("xarray+attrs") else None
+            if req is None and not geo_kind.startswith("xarray+attrs"):
+                req = scan
+            rps = scan if req is None else (req or srows)
+            ref = refs[(rps, mwm)]
+            if ref is None:
+                continue
+            # geolocation chunks: whole multiples of both the instrument's and the requested scan size
+            unit = rps if rps % scan == 0 else scan
+            gch_rows = srows if geo_kind == "numpy" else unit * rng.choice([k for k in (1, 2, 3, 4) if srows % (unit * k) == 0])
+            eff_rows = gch_rows if gch_rows % rps == 0 else srows          # (the resampler re-chunks geolocation that is not aligned to the request)
+            dch_rows = rng.choice([gch_rows, srows, unit])
+            outc = rng.choice([(h, w), (7, 9), ((1, h - 1), (w - 2, 2)), (16, 12)])
+            attrs_scan = scan if geo_kind.startswith("xarray+attrs") else None
+            inp = {"area": {"proj": proj, "width": w, "height": h, "extent": list(ext)}, "swath": [srows, scols], "instrument_scan_rows": scan,
+                   "geolocation": geo_kind, "lons.attrs.rows_per_scan": attrs_scan, "rows_per_scan_keyword": "not given" if req is None else req,
+                   "scan_rows_expected": rps, "dtype": np.dtype(dtype).name, "mode": "max" if mwm else "avg", "kwargs": kw,
+                   "lons_checksum": float(lons.sum()), "nan_pixels": int(bad.sum()), "geolocation_chunk_rows": "numpy" if geo_kind == "numpy" else gch_rows,
+                   "data_chunk_rows": dch_rows, "output_chunks": str(outc)}
+            ref_instr = refs.get((scan, mwm))
+            matters = ref_instr is not None and rps != scan and bool(
+                (np.isnan(ref_instr) != np.isnan(ref)).any() or np.nanmax(np.abs(np.where(np.isnan(ref) | np.isnan(ref_instr), 0, ref - ref_instr))) > 1e-3 * (1 + abs(vmax - vmin)))
+            conflict = attrs_scan is not None and req is not None and rps != attrs_scan
+            ctx.case("dask-scan-grouping", (name, lons.tobytes(), data.tobytes(), mwm, geo_kind, str(req), gch_rows, dch_rows, str(outc), str(kw)),
+                     nontrivial=(conflict and matters) or gch_rows != srows, sample={"area": name, "geo": geo_kind, "scan": scan, "keyword": inp["rows_per_scan_keyword"], "mode": inp["mode"]})
+            ctx.count(f"dask_scan_grouping.geo.{geo_kind}")
+            ctx.count("dask_scan_grouping.keyword." + ("none" if req is None else "instrument" if rps == scan else "whole-swath" if rps == srows else "other-grouping"))
+            if conflict:
+                ctx.count("dask_scan_grouping.keyword_differs_from_attrs." + ("grid_depends_on_grouping" if matters else "same_grid_either_way"))
+            try:
+                with warnings.catch_warnings(), dask.config.set(scheduler="synchronous"):
+                    warnings.simplefilter("ignore")
+
+                    def geo():
+                        if geo_kind == "numpy":
+                            return SwathDefinition(lons.copy(), lats.copy())
+                        dl, dt = da.from_array(lons, chunks=(gch_rows, scols)), da.from_array(lats, chunks=(gch_rows, scols))
+                        if geo_kind == "dask":
+                            return SwathDefinition(dl, dt)
+                        a_lon = {"rows_per_scan": scan} if attrs_scan is not None else {}
+                        a_lat = {"rows_per_scan": scan} if geo_kind == "xarray+attrs-both" else {}
+                        return SwathDefinition(xr.DataArray(dl, dims=("y", "x"), attrs=a_lon), xr.DataArray(dt, dims=("y", "x"), attrs=a_lat))
+                    rkw = {} if req is None else {"rows_per_scan": req}
+                    xd = xr.DataArray(da.from_array(data, chunks=(dch_rows, scols)), dims=("y", "x"))
+                    res = DaskEWAResampler(geo(), area).resample(xd, chunks=outc, maximum_weight_mode=mwm, **rkw, **kw)
+                    got = np.asarray(res.values if hasattr(res, "values") else res, float)
+                    got_c = None
+                    if li % 4 == 0:
+                        res_c = DaskEWAResampler(geo(), area).resample(const.copy(), chunks=outc, maximum_weight_mode=mwm, **rkw, **kw)
+                        got_c = np.asarray(res_c.values if hasattr(res_c, "values") else res_c, float)
+            except Exception as e:  # noqa
+                ctx.fail(site, f"raised {type(e).__name__}: {str(e)[:200]} (rows_per_scan keyword {inp['rows_per_scan_keyword']}, lons.attrs {attrs_scan}); one-shot ll2cr+fornav "
+                         "resamples the same pixels", inp, None, tags={"cause": "exception", "mode": inp["mode"]}, size=w * h)
+                continue
+            hint = (f"; rows_per_scan={req} was asked for while lons.attrs['rows_per_scan'] = {attrs_scan}" if conflict else "")
+            if got.shape != ref.shape:
+                ctx.fail(site, f"result shape {got.shape}, one-shot {ref.shape}", inp, None, tags={"cause": "shape"}, size=w * h)
+                continue
+            pat = np.isnan(got) != np.isnan(ref)
+            both = ~np.isnan(ref) & ~np.isnan(got)
+            tol = 0.0 if mwm else 2e-4 * (1 + np.abs(np.where(both, ref, 0)))     # maximum-weight mode copies input values: exact
+            dif = both & (np.abs(np.where(both, got - ref, 0)) > tol)
+            if pat.any() or dif.any():
+                dropped = _edge_chunks_explain(lons, lats, area, cols, rows, data, eff_rows, rps, mwm, kw, got)
+                # which grouping does the result follow instead?  (description only)
+                follows = [g_ for (g_, m_), r_ in refs.items() if m_ == mwm and g_ != rps and r_ is not None and not (np.isnan(r_) != np.isnan(got)).any()
+                           and not (np.abs(np.where(np.isnan(r_), 0, got - r_)) > (0.0 if mwm else 2e-4 * (1 + np.abs(np.where(np.isnan(r_), 0, r_))))).any()]
+                idx = tuple(map(int, np.argwhere(pat if pat.any() else dif)[0]))
+                ctx.fail(site, f"grid cell {idx}: dask result {'fill' if np.isnan(got[idx]) else got[idx]} but one-shot ll2cr+fornav(rows_per_scan={rps}) gives "
+                         f"{'fill' if np.isnan(ref[idx]) else ref[idx]} ({int(pat.sum())} cells differ in fill/valid state, {int(dif.sum())} in value)" + hint
+                         + (f"; the dask grid is the one-shot grid for rows_per_scan={follows[0]}" if follows else "")
+                         + (f"; the dask grid is the one-shot grid without the swath rows {dropped}: chunks with no pixel within one cell of the grid are skipped, "
+                            "their footprints reach it" if dropped else ""), {**inp, "skipped_rows": dropped}, {"n_pattern": int(pat.sum()), "n_values": int(dif.sum())},
+                         tags={"cause": "edge-chunk-dropped" if dropped else ("pattern" if pat.any() else "values"), "mode": inp["mode"]}, size=w * h)
+                continue
+            if both.any() and (np.nanmin(got) < vmin - 1e-3 * (1 + abs(vmin)) or np.nanmax(got) > vmax + 1e-3 * (1 + abs(vmax))):
+                ctx.fail(site, f"values [{np.nanmin(got)}, {np.nanmax(got)}] leave the input range [{vmin}, {vmax}]", inp, None, tags={"cause": "out-of-range"}, size=w * h)
+            if got_c is not None and (~np.isnan(got_c)).any() and np.nanmax(np.abs(got_c - 7.25)) > 1e-3:
+                ctx.fail(site, f"a constant field 7.25 comes out as [{np.nanmin(got_c)}, {np.nanmax(got_c)}]" + hint, inp, None, tags={"cause": "constant"}, size=w * h)
+
+
 def suite_fornav_masked(ctx):
     """ewa.fornav with numpy MaskedArray input (finding F36): masked pixels are invalid pixels. The result must be what the same data gives
     with the masked pixels marked by the fill value (NaN for floats, the fill for integers), returned as a masked array whose mask is
@@ -766,7 +960,7 @@ def run(ctx):
         ctx.note(ewa_build.install_fornav())
     except Exception as e:  # noqa
         ctx.note(f"could not rebuild _fornav ({type(e).__name__}: {e}); using the in-tree module")
-    for suite in (suite_ll2cr, suite_cells, suite_combine, suite_dask, suite_dask_mixed, suite_fornav_masked):
+    for suite in (suite_ll2cr, suite_cells, suite_combine, suite_dask, suite_dask_mixed, suite_fornav_masked, suite_dask_scan_grouping):
         try:
             suite(ctx)
         except Exception as e:  # noqa
